@@ -16,6 +16,7 @@ CONSTANTS
   LayoutIds = {%s}
   Eols = {%s}
   Priors = {%s}
+  Extras = %s
   Rules = {%s}
   Scopes = {%s}
   OnlyBasePairs = %s
@@ -31,9 +32,9 @@ def B(x):
     return "TRUE" if x else "FALSE"
 
 
-def cfg(nproms, layouts, rules, scopes, only_base, all_places, slim, inv, view=False, eols=("lf",), priors=("none",)):
+def cfg(nproms, layouts, rules, scopes, only_base, all_places, slim, inv, view=False, eols=("lf",), priors=("none",), extras=False):
     return CFG % (", ".join(map(str, nproms)), ", ".join(map(str, layouts)), ", ".join('"%s"' % s for s in eols),
-                  ", ".join('"%s"' % s for s in priors), ", ".join(map(str, rules)),
+                  ", ".join('"%s"' % s for s in priors), B(extras), ", ".join(map(str, rules)),
                   ", ".join('"%s"' % s for s in scopes), B(only_base), B(all_places), B(slim), inv, "VIEW MCView\n" if view else "")
 
 
@@ -81,11 +82,11 @@ def run(ctx, cases_override=None):
     if cases_override is None:   # a replay only re-executes the stored case
         if th:
             mcs = [ctx.tlc("DispatchC07", "c07_mc.cfg", files={"c07_mc.cfg": cfg([1, 2], [1, 2, 3, 4], [2], ["rule", "file"], False, False, False, "Inv_C07", True,
-                                                                                 priors=("none", "expired"))},
+                                                                                 priors=("none", "expired", "filefuture"), extras=True)},
                            timeout=5400, allow_violation=True, workers=W, dfs=True)]
         else:
             mcs = [ctx.tlc("DispatchC07", "c07_mc.cfg", files={"c07_mc.cfg": cfg([1], [2, 4], [2], ["rule", "file"], False, False, False, "Inv_C07", True,
-                                                                                 priors=("none", "expired"))},
+                                                                                 priors=("none", "expired", "filefuture"), extras=True)},
                            timeout=3000, allow_violation=True, workers=W, dfs=True)]
     leads = [m["invariant_violated"] for m in mcs if m["invariant_violated"]]
     # ---- probe: reports of the unmodified file per scenario -> C07Base (which (rule, check) pairs have problems)
@@ -120,17 +121,19 @@ def run(ctx, cases_override=None):
                 random.Random(ctx.seed).shuffle(cs)
                 cs = [json.loads(c) for c in cs[:cap]]
             return cs
-        BOTH, PR = ("lf", "crlf"), ("none", "expired")
+        BOTH, PR = ("lf", "crlf"), ("none", "expired", "filefuture")
         if th:
             # every (rule, check) pair with a problem x every comment form x spelling x every placement (1 server, locked layout)
             cases += gen("c07_gen0.cfg", cfg([1], [2], ALL_RULES, ["rule", "file"], True, True, False, "EmitCase"))
             cases += gen("c07_gen1.cfg", cfg([2], [1, 3, 4], ALL_RULES, ["rule", "file"], True, False, True, "EmitCase", eols=BOTH))
-            cases += gen("c07_gen2.cfg", cfg([1, 2], [1, 2, 3, 4], ALL_RULES, ["rule", "file"], False, True, False, "EmitCase", eols=BOTH, priors=PR),
+            # binding-only growth: owner / rule/set comments and the column-0 placement, file/snooze interplay (one scenario)
+            cases += gen("c07_gen3.cfg", cfg([1], [1], ALL_RULES, ["rule", "file"], True, False, False, "EmitCase", priors=PR, extras=True))
+            cases += gen("c07_gen2.cfg", cfg([1, 2], [1, 2, 3, 4], ALL_RULES, ["rule", "file"], False, True, False, "EmitCase", eols=BOTH, priors=PR, extras=True),
                          cap=6000, simulate=400, depth=7)
         else:
             # every (rule, check) pair with a problem: `# pint disable <name>` above the rule, file/disable on top
             cases += gen("c07_gen0.cfg", cfg([1], [2], ALL_RULES, ["rule", "file"], True, False, True, "EmitCase"))
-            cases += gen("c07_gen1.cfg", cfg([1, 2], [1, 2, 3, 4], ALL_RULES, ["rule", "file"], True, True, False, "EmitCase", eols=BOTH, priors=PR),
+            cases += gen("c07_gen1.cfg", cfg([1, 2], [1, 2, 3, 4], ALL_RULES, ["rule", "file"], True, True, False, "EmitCase", eols=BOTH, priors=PR, extras=True),
                          cap=500, simulate=40, depth=7)
         seen, uniq = set(), []
         for c in cases:
